@@ -74,6 +74,13 @@ def case_strategy(draw: Any, proto: str) -> Dict[str, Any]:
             case["event"] = draw(st.sampled_from(["conn_window_update", "conn_window_update",
                                                   "rst_stream", "conn_eof"]))
         case["sibling"] = draw(st.booleans())
+        if draw(st.integers(0, 3)) == 0:
+            # flow control never limits (huge windows): the transport itself stops accepting, as
+            # under HTTP/1; full-size frames drain the stream buffer once the peer reads again
+            case["window"] = -2
+            case["kernel"] = draw(st.sampled_from([0, 1000, 65536, 262144]))
+            case["event"] = draw(st.sampled_from(["resume", "resume", "dribble", "reset"]))
+            case["sibling"] = False
     return case
 
 
@@ -214,7 +221,8 @@ def judge_h1(case: Dict[str, Any], obs: Any, mult: int) -> Dict[str, Any]:
 async def scenario_h2(env: Any, case: Dict[str, Any], app: Any, ws: bool) -> Dict[str, Any]:
     out: Dict[str, Any] = {}
     conn_limited = case["window"] == -1
-    settings = {4: (1 << 24) if conn_limited else case["window"]}
+    transport_limited = case["window"] == -2
+    settings = {4: (1 << 24) if case["window"] < 0 else case["window"]}
     if ws:
         sess = WSSession(env, "h2", h2_settings=settings, direct=True)
         status = await sess.open(path="/big")
@@ -222,12 +230,16 @@ async def scenario_h2(env: Any, case: Dict[str, Any], app: Any, ws: bool) -> Dic
         conn = sess.conn
         sid = sess.sid
         out["status"] = status
+        if transport_limited:
+            conn.pause_reading(case["kernel"])
     else:
         conn = env.connect()
         client = H2Client(conn, settings)
         client.start()
         await env.settle0()
         client.pump()
+        if transport_limited:
+            conn.pause_reading(case["kernel"])
         sid = client.request([(b":method", b"GET"), (b":scheme", b"http"),
                               (b":authority", b"x"), (b":path", b"/big")], end_stream=True)
     assert client is not None
@@ -245,8 +257,10 @@ async def scenario_h2(env: Any, case: Dict[str, Any], app: Any, ws: bool) -> Dic
     delivered = len(client.streams.get(sid, {}).get("data", b""))
     out["pending_at_event"] = pending_sends(app)
     out["held"] = (returned_bytes(big[0]) if big else 0) - delivered
+    if transport_limited:
+        out["held"] -= len(_kernel(conn))
     sib = None
-    if case.get("sibling") and not conn_limited:
+    if case.get("sibling") and case["window"] >= 0:
         sib = client.request([(b":method", b"GET"), (b":scheme", b"http"), (b":authority", b"x"),
                               (b":path", b"/small")], end_stream=True)
         try:
@@ -308,6 +322,19 @@ async def scenario_h2(env: Any, case: Dict[str, Any], app: Any, ws: bool) -> Dic
             pass  # the stream already ended: nothing to reset
     elif ev == "conn_eof":
         conn.eof()
+    elif ev in ("resume", "dribble"):
+        if ev == "dribble":
+            for _ in range(2000):
+                if conn.held_by_server == 0 and not pending_sends(app):
+                    break
+                conn.accept_bytes(50021)
+                await env.sleep(0.001)
+        conn.resume_reading()
+        for _ in range(400):
+            await env.settle(5.0)
+            if not client.pump():
+                break
+            client.unacked = []
     else:
         conn.reset()
     await env.settle(30.0)
@@ -329,7 +356,7 @@ def judge_h2(case: Dict[str, Any], obs: Any, mult: int, ws: bool) -> Dict[str, A
         raise Violation("handler_exception", repr(conn.handler_exc), backend=be)
     if client.error:
         raise Violation("client_protocol_error", client.error, backend=be)
-    if case.get("sibling") and case["window"] != -1:
+    if case.get("sibling") and case["window"] >= 0:
         s = val.get("sibling", {})
         if not s.get("ended") or bytes(s.get("data", b"")) != b"witness":
             raise Violation("sibling_blocked", f"sibling stream not served while stream {sid} "
@@ -343,7 +370,8 @@ def judge_h2(case: Dict[str, Any], obs: Any, mult: int, ws: bool) -> Dict[str, A
         raise Violation("app_never_finished", f"after event {case['event']}: "
                         f"{[(i.scope.get('path'), i.exit) for i in obs.instances]}", backend=be,
                         event=case["event"])
-    if case["event"] in ("window_update", "settings_window", "conn_window_update"):
+    if case["event"] in ("window_update", "settings_window", "conn_window_update", "resume",
+                         "dribble"):
         st_ = client.streams.get(sid, {})
         data = bytes(st_.get("data", b""))
         if ws:
